@@ -262,3 +262,167 @@ func c02Deep(ctx *Ctx) {
 		}
 	}
 }
+
+// ---- pinned precision: every arithmetic result against the exact rational result rounded where the model pins it ----
+
+// c02PinnedPairs: operand pairs aimed at the precision decisions: whole numbers held at float64 (53-bit) and lower
+// precisions whose product / sum / difference needs 54..64 or 65..128 bits, int64-built pairs whose product needs
+// 65..128 bits, 512-bit parsed integers, and mixed precisions.
+func c02PinnedPairs(ctx *Ctx) [][2]cty.Value {
+	var out [][2]cty.Value
+	lit := [][2]float64{{4294967295, 4294967295}, {134217729, 134217729}, {9007199254740991, 3}, {9007199254740991, 9007199254740991},
+		{9007199254740991, 1}, {4503599627370497, 4503599627370495}, {94906267, 94906265}, {3, 6004799503160661}}
+	for _, l := range lit {
+		out = append(out, [2]cty.Value{cty.NumberFloatVal(l[0]), cty.NumberFloatVal(l[1])})
+		out = append(out, [2]cty.Value{cty.NumberFloatVal(-l[0]), cty.NumberFloatVal(l[1])})
+	}
+	n := ctx.N(1200, 30000)
+	for i := 0; i < n; i++ {
+		// two odd whole numbers of ba and bb bits
+		ba, bb := 1+ctx.R.Intn(53), 1+ctx.R.Intn(53)
+		switch ctx.R.Intn(4) {
+		case 0: // product needs 54..64 bits
+			ba = 27 + ctx.R.Intn(11)
+			bb = 54 + ctx.R.Intn(11) - ba
+			if bb > 53 {
+				bb = 53
+			}
+			if bb < 1 {
+				bb = 1
+			}
+		case 1: // product needs 65..106 bits
+			ba = 33 + ctx.R.Intn(21)
+			bb = 33 + ctx.R.Intn(21)
+		}
+		mk := func(bits int) float64 {
+			if bits <= 1 {
+				return 1
+			}
+			v := (uint64(1) << uint(bits-1)) | (ctx.R.Uint64() & ((uint64(1) << uint(bits-1)) - 1)) | 1
+			return float64(v) // exact: bits ≤ 53
+		}
+		x, y := mk(ba), mk(bb)
+		if ctx.R.Intn(3) == 0 {
+			x = -x
+		}
+		var a, b cty.Value
+		switch ctx.R.Intn(6) {
+		case 0: // low precision holders
+			pa := uint(ba + ctx.R.Intn(4))
+			pb := uint(bb + ctx.R.Intn(4))
+			a = cty.NumberVal(new(big.Float).SetPrec(pa).SetFloat64(x))
+			b = cty.NumberVal(new(big.Float).SetPrec(pb).SetFloat64(y))
+		case 1: // int64-built (64-bit precision): ofInt a ⊗ ofInt b
+			xi := ctx.R.Int63() >> uint(ctx.R.Intn(40))
+			yi := ctx.R.Int63() >> uint(ctx.R.Intn(40))
+			if ctx.R.Intn(2) == 0 {
+				xi = -xi
+			}
+			a, b = cty.NumberIntVal(xi), cty.NumberIntVal(yi)
+		case 2: // mixed: float64-derived × int64-built
+			a, b = cty.NumberFloatVal(x), cty.NumberIntVal(int64(y))
+		case 3: // mixed: float64-derived × 512-bit parsed
+			a, b = cty.NumberFloatVal(x), cty.MustParseNumberVal(fmt.Sprintf("%.0f", y))
+		default:
+			a, b = cty.NumberFloatVal(x), cty.NumberFloatVal(y)
+		}
+		out = append(out, [2]cty.Value{a, b})
+	}
+	for i := 0; i < ctx.N(800, 20000); i++ {
+		out = append(out, [2]cty.Value{genNumber(ctx.R, ValOpts{}), genNumber(ctx.R, ValOpts{})})
+	}
+	return out
+}
+
+func c02Pinned(ctx *Ctx) {
+	for _, pr := range c02PinnedPairs(ctx) {
+		a, b := pr[0], pr[1]
+		ra, rb := ratOf(a), ratOf(b)
+		if ra == nil || rb == nil {
+			continue
+		}
+		wa, wb := numWire(a), numWire(b)
+		pa, pb := a.AsBigFloat().Prec(), b.AsBigFloat().Prec()
+		pmax := pa
+		if pb > pmax {
+			pmax = pb
+		}
+		lit := fmt.Sprintf("%#v ; %#v (precisions %d, %d)", a, b, pa, pb)
+		type pin struct {
+			name  string
+			f     func() cty.Value
+			exact *big.Rat
+		}
+		for _, o := range []pin{
+			{"add", func() cty.Value { return a.Add(b) }, new(big.Rat).Add(ra, rb)},
+			{"sub", func() cty.Value { return a.Subtract(b) }, new(big.Rat).Sub(ra, rb)},
+			{"mul", func() cty.Value { return a.Multiply(b) }, new(big.Rat).Mul(ra, rb)},
+		} {
+			var res cty.Value
+			panicked, _ := try(func() { res = o.f() })
+			impl := "panic"
+			if !panicked {
+				impl = "ok " + numWire(res)
+			}
+			ctx.Add("num."+o.name, impl, wa, wb)
+			key := "pin " + o.name + " " + wa + " " + wb
+			ctx.Eval(key, !panicked)
+			if panicked {
+				ctx.Fail(Failure{Site: "arith-total", Sig: "panic:" + o.name, What: "arithmetic on finite operands panicked", Input: key, GoLit: lit, Outcome: "panic"})
+				continue
+			}
+			f := res.AsBigFloat()
+			bits := 0
+			if o.exact.Sign() != 0 && o.exact.IsInt() {
+				bits = o.exact.Num().BitLen()
+			}
+			switch {
+			case bits == 0:
+				ctx.Tag("d02:pinned-" + o.name + "-other")
+			case bits <= 53:
+				ctx.Tag("d02:pinned-" + o.name + "-int<=53bits")
+			case bits <= 64:
+				ctx.Tag("d02:pinned-" + o.name + "-int-54..64bits")
+			case bits <= 128:
+				ctx.Tag("d02:pinned-" + o.name + "-int-65..128bits")
+			default:
+				ctx.Tag("d02:pinned-" + o.name + "-int>128bits")
+			}
+			if pmax == 0 {
+				continue // two zero-precision zeros
+			}
+			var want *big.Float
+			var wantPrec uint
+			if o.name == "mul" {
+				// cty pins: the exact product rounded at 512 bits, stored at max(operand precisions, bits it needs)
+				want = roundNE(o.exact, 512)
+				wantPrec = pmax
+				if mp := want.MinPrec(); mp > wantPrec {
+					wantPrec = mp
+				}
+			} else {
+				want = roundNE(o.exact, pmax)
+				wantPrec = pmax
+			}
+			if f.IsInf() || f.Cmp(want) != 0 {
+				ctx.Fail(Failure{Site: "arith-pinned", Sig: "pinned-value:" + o.name, What: "the result is not the exact result rounded (nearest even) at the precision the operation pins (add/sub: max of the operand precisions; mul: 512 bits)",
+					Input: key, GoLit: lit, Outcome: res.GoString() + " want " + want.Text('g', 60) + " exact " + o.exact.RatString()})
+			} else if f.Prec() != wantPrec {
+				ctx.Fail(Failure{Site: "arith-pinned", Sig: "pinned-prec:" + o.name, What: "the result does not carry the documented precision (add/sub: max of the operand precisions; mul: max of them and the bits the product needs)",
+					Input: key, GoLit: lit, Outcome: fmt.Sprintf("%s prec %d want %d", res.GoString(), f.Prec(), wantPrec)})
+			}
+			// integer exactness: a whole result that fits the pinned precision is exact
+			fitsAt := uint(512)
+			if o.name != "mul" {
+				fitsAt = pmax
+			}
+			if o.exact.IsInt() && uint(o.exact.Num().BitLen()) <= fitsAt {
+				rr, _ := f.Rat(nil)
+				if rr.Cmp(o.exact) != 0 {
+					ctx.Fail(Failure{Site: "arith-exact-int", Sig: "exactint-pinned:" + o.name, What: "a whole-number result that fits the pinned precision is not exact",
+						Input: key, GoLit: lit, Outcome: res.GoString() + " exact " + o.exact.RatString()})
+				}
+			}
+		}
+	}
+}
